@@ -64,10 +64,251 @@ def discr_edges(cfg, adt_suffix, variant_index, place_pred=None):
     return edges, other
 
 
+QUICK_TYPES = ["Bool", "Int32", "UInt32", "Float32", "Int323", "Float322", "Float324", "Float322x2", "Enum", "Struct"]
+MORE_TYPES = ["Float16", "Float64", "Bool3", "UInt322", "Bool2x2", "Int324x4", "IntLiteral", "FloatLiteral"]
+LITERALS = ("IntLiteral", "FloatLiteral")
+
+
+def addbad(bad, msg):
+    """keep the first case of each kind of failure (the text after the operand description names the kind)"""
+    kind = msg.split(": ", 1)[-1].split(" (")[0][:40]
+    if all(k != kind for k, m in bad["type"]) and len(bad["type"]) < 4:
+        bad["type"].append((kind, msg))
+
+
+def operand_universe(el, tier):
+    names = [t for t in QUICK_TYPES + (MORE_TYPES if tier == "thorough" else []) if t in el.u.names]
+    ls, rs = [], []
+    for t in names:
+        if t in LITERALS:
+            ls.append(el.ety(t, 0, "Rvalue"))
+            rs.append(el.ety(t, 0, "Rvalue"))
+            continue
+        for m, vt in ((0, "Lvalue"), (0, "Rvalue"), (1, "Lvalue"), (2, "Lvalue")):
+            ls.append(el.ety(t, m, vt))
+        for m, vt in ((0, "Rvalue"), (1, "Lvalue")):
+            rs.append(el.ety(t, m, vt))
+    return ls, rs
+
+
+_W = {}
+
+
+def _elab():
+    import elabmodel as EM
+    if "el" not in _W:
+        _W["el"] = EM.Elab(_W["facts"])
+        _W["ls"], _W["rs"] = operand_universe(_W["el"], _W["tier"])
+        _W["intr"] = set(_W["facts"].variants("intrinsics::IntrinsicOp", "rssl_ir") or [])
+    return _W["el"], _W["ls"], _W["rs"], _W["intr"]
+
+
+def _top_intrinsic(el, intr, node, op, what, bad):
+    if not (isinstance(node, I.Enum) and node.variant == "IntrinsicOp"):
+        addbad(bad, "%s: elaborates to %s, not to an operator node" % (what, el.show(node)))
+        return False
+    i = node.fields["0"]
+    if op in intr and (not isinstance(i, I.Enum) or i.variant != op):
+        addbad(bad, "%s: elaborates to IntrinsicOp::%s" % (what, getattr(i, "variant", i)))
+        return False
+    return True
+
+
+def _binop_task(op):
+    """-> (op, readable, cases, accepted, bad)"""
+    el, ls, rs, intr = _elab()
+    bad = {"type": [], "const": None, "lvalue": None}
+    cases = n_ok = 0
+    for l in ls:
+        for r in rs:
+            cases += 1
+            res = el.run_binop(op, l, r)
+            operands = {"L": l, "R": r}
+            what = "%s %s %s" % (el.describe(l), op, el.describe(r))
+            if res[0] == "unreadable":
+                return (op, False, cases, n_ok, res[1])
+            if res[0] == "aborts":
+                addbad(bad, "%s: elaboration aborts (%s)" % (what, res[1]))
+                continue
+            if res[0] == "Err":
+                continue
+            n_ok += 1
+            node, ty = res[1], res[2]
+            if op in ASSIGN_OPS:
+                if el.is_const(l):
+                    bad["const"] = bad["const"] or "%s is accepted: a const left operand is written" % what
+                if not el.is_lvalue(l):
+                    bad["lvalue"] = bad["lvalue"] or "%s is accepted: the left operand is not an lvalue" % what
+            if op != "Sequence" and not _top_intrinsic(el, intr, node, op, what, bad):
+                continue
+            for kind, msg in el.check_node(what, node, ty, operands, ("L", "R")):
+                if kind == "unreadable":
+                    return (op, False, cases, n_ok, msg)
+                addbad(bad, msg)
+    return (op, True, cases, n_ok, bad)
+
+
+def _unop_task(op):
+    el, ls, rs, intr = _elab()
+    bad = {"type": [], "const": None, "rvalue": None, "bool": None}
+    n_ok = 0
+    for l in ls:
+        res = el.run_unop(op, l)
+        operands = {"L": l}
+        what = "%s applied to %s" % (op, el.describe(l))
+        if res[0] == "unreadable":
+            return (op, False, len(ls), n_ok, res[1])
+        if res[0] == "aborts":
+            addbad(bad, "%s: elaboration aborts (%s)" % (what, res[1]))
+            continue
+        if res[0] == "Err":
+            continue
+        n_ok += 1
+        node, ty = res[1], res[2]
+        if op in INCDEC:
+            if el.is_const(l):
+                bad["const"] = bad["const"] or "%s is accepted: a const operand is written" % what
+            if not el.is_lvalue(l):
+                bad["rvalue"] = bad["rvalue"] or "%s is accepted: the operand is not an lvalue" % what
+            if el.scalar(l) == "Bool":
+                bad["bool"] = bad["bool"] or "%s is accepted" % what
+        if not _top_intrinsic(el, intr, node, op, what, bad):
+            continue
+        for kind, msg in el.check_node(what, node, ty, operands, ("L",)):
+            if kind == "unreadable":
+                return (op, False, len(ls), n_ok, msg)
+            addbad(bad, msg)
+    return (op, True, len(ls), n_ok, bad)
+
+
+def _ternary_task(ci):
+    el, ls, rs, intr = _elab()
+    conds = [el.ety(t, m, vt) for t in ("Bool", "Int32", "Float32", "Int323", "Struct", "Enum") if t in el.u.names
+             for m, vt in ((0, "Lvalue"), (0, "Rvalue"))] + [el.ety("Bool", 1, "Lvalue")]
+    if ci >= len(conds):
+        return (ci, True, 0, 0, {"type": []})
+    c = conds[ci]
+    bad = {"type": []}
+    n_ok = cases = 0
+    for l in ls:
+        for r in rs:
+            cases += 1
+            res = el.run_ternary(c, l, r)
+            operands = {"C": c, "L": l, "R": r}
+            what = "(%s) ? %s : %s" % (el.describe(c), el.describe(l), el.describe(r))
+            if res[0] == "unreadable":
+                return (ci, False, cases, n_ok, res[1])
+            if res[0] == "aborts":
+                addbad(bad, "%s: elaboration aborts (%s)" % (what, res[1]))
+                continue
+            if res[0] == "Err":
+                continue
+            n_ok += 1
+            node, ty = res[1], res[2]
+            if not (isinstance(node, I.Enum) and node.variant == "TernaryConditional"):
+                addbad(bad, "%s: elaborates to %s" % (what, el.show(node)))
+                continue
+            ct = el.node_type(node.fields["0"], operands)
+            if ct[0] != "ok" or el.u.split(ct[1].fields["0"])[0] != el.u.names.get("Bool"):
+                addbad(bad, "%s: the condition of the node has type %s, must be bool" % (what, el.describe(ct[1]) if ct[0] == "ok" else ct[0]))
+                continue
+            for kind, msg in el.check_node(what, node, ty, operands, ("C", "L", "R")):
+                if kind == "unreadable":
+                    return (ci, False, cases, n_ok, msg)
+                addbad(bad, msg)
+    return (ci, True, cases, n_ok, bad)
+
+
+def _pmap(fn, items):
+    """fork workers (the facts are inherited, nothing is pickled but the small results)"""
+    import multiprocessing as mp
+    import os
+    n = min(len(items), int(os.environ.get("VERIF_JOBS", "0") or 0) or (os.cpu_count() or 2))
+    if n <= 1:
+        return [fn(x) for x in items]
+    with mp.get_context("fork").Pool(n) as pool:
+        return pool.map(fn, items, chunksize=1)
+
+
+def rule_elab_eval(chk):
+    """parse_expr_binop, parse_expr_unaryop and parse_expr_ternary evaluated for every operator over a matrix of operand
+    types (elabmodel.py). Every accepted combination must build a node (a) whose leaves are the sub-expressions in order,
+    (b) to which rssl's own IR typing rule - Expression::get_type with IntrinsicOp::get_return_type, asserts included -
+    gives a type without aborting, (c) that type being the one the function reported, (d) with only numeric or
+    modifier-only casts inserted. Assignment operators and ++/-- must be refused for const, rvalue (and, for ++/--, bool)
+    left operands. Returns (binop readable, unaryop readable)."""
+    import elabmodel as EM
+    f = chk.facts
+    _W.clear()
+    _W["facts"], _W["tier"] = f, chk.tier
+    el, ls, rs, intr = _elab()
+    if not el.binop or not el.unop or not el.ret or not el.get_type:
+        return False, False
+    binops = f.variants("ast_expressions::BinOp", "rssl_ast") or []
+    unops = f.variants("ast_expressions::UnaryOp", "rssl_ast") or []
+    chk.note("C03.elab: %d binary operators x %d left x %d right operands, %d unary operators x %d operands"
+             % (len(binops), len(ls), len(rs), len(unops), len(ls)))
+    # ---- binary
+    res = _pmap(_binop_task, binops)
+    readable_b = bool(res) and all(r[1] for r in res)
+    if not readable_b:
+        chk.note("C03.elab: parse_expr_binop is not readable (%s); falling back to the dominance rules" % [r[4] for r in res if not r[1]][:1])
+    else:
+        for op, _r, cases, n_ok, bad in sorted(res):
+            ok = not bad["type"]
+            chk.ob("C03.elab/binop/" + op, ok, "%d operand combinations: every accepted one builds a node whose operands are the two sub-expressions, converted to exactly the types the IR typing rule requires, with the reported type" % cases
+                   if ok else "; ".join(m for k, m in bad["type"]), where(el.binop), sample={"op": op, "cases": cases, "accepted": n_ok})
+            if op in ASSIGN_OPS:
+                chk.ob("C03.assign/const/" + op, not bad["const"], "refused for every const left operand" if not bad["const"] else bad["const"], where(el.binop),
+                       sample={"op": op, "guard": "is_const"})
+                chk.ob("C03.assign/lvalue/" + op, not bad["lvalue"], "refused for every rvalue left operand" if not bad["lvalue"] else bad["lvalue"], where(el.binop),
+                       sample={"op": op, "guard": "Lvalue"})
+                chk.ob("C03.assign/site/" + op, True, "decided by the evaluated elaboration", where(el.binop), trivial=True)
+        chk.ob("C03.assign/tests-left-operand", True, "decided by the evaluated elaboration (operand order is part of C03.elab/binop/*)", where(el.binop), trivial=True)
+        chk.ob("C03.assign/errors", True, "decided by the evaluated elaboration", where(el.binop), trivial=True)
+        chk.floor("C03.floor/elab-binop-accepted", sum(r[3] for r in res), 1000, "accepted operand combinations typed again", where(el.binop))
+    # ---- unary
+    res = _pmap(_unop_task, unops)
+    readable_u = bool(res) and all(r[1] for r in res)
+    if not readable_u:
+        chk.note("C03.elab: parse_expr_unaryop is not readable (%s); falling back to the dominance rules" % [r[4] for r in res if not r[1]][:1])
+    else:
+        for op, _r, cases, n_ok, bad in sorted(res):
+            chk.ob("C03.elab/unary/" + op, not bad["type"], "%d operands: every accepted one builds a node typed as the IR typing rule requires, with the reported type" % cases
+                   if not bad["type"] else "; ".join(m for k, m in bad["type"]), where(el.unop), sample={"op": op, "cases": cases, "accepted": n_ok})
+            if op in INCDEC:
+                okg = not (bad["const"] or bad["rvalue"] or bad["bool"])
+                chk.ob("C03.incdec/" + op, okg, "refused for const, rvalue and bool operands" if okg else (bad["const"] or bad["rvalue"] or bad["bool"]),
+                       where(el.unop), sample={"op": op, "checked": okg})
+        for k in ("const", "rvalue", "bool"):
+            b = [r[4][k] for r in res if r[4].get(k)]
+            chk.ob("C03.incdec/rejects-" + k, not b, "%s operands of ++/-- are refused" % k if not b else b[0], where(el.unop))
+        chk.floor("C03.floor/elab-unary-accepted", sum(r[3] for r in res), 60, "accepted operands typed again", where(el.unop))
+    # ---- ternary
+    if el.ternary:
+        res = _pmap(_ternary_task, list(range(13)))
+        if all(r[1] for r in res):
+            msgs = []
+            for r in res:
+                for k, m in r[4]["type"]:
+                    if len(msgs) < 4:
+                        msgs.append(m)
+            cases, n_ok = sum(r[2] for r in res), sum(r[3] for r in res)
+            chk.ob("C03.elab/ternary", not msgs, "%d operand combinations (%d accepted): condition converted to bool, both arms converted to one type, which is the reported type" % (cases, n_ok)
+                   if not msgs else "; ".join(msgs), where(el.ternary), sample={"cases": cases, "accepted": n_ok})
+            chk.floor("C03.floor/elab-ternary-accepted", n_ok, 200, "accepted operand combinations typed again", where(el.ternary))
+        else:
+            chk.note("C03.elab: parse_expr_ternary is not readable (%s)" % [r[4] for r in res if not r[1]][:1])
+    return readable_b, readable_u
+
+
 def run(chk):
     f = chk.facts
-    rule_assign(chk)
-    rule_incdec(chk)
+    rb, ru = rule_elab_eval(chk)
+    if not rb:
+        rule_assign(chk)
+    if not ru:
+        rule_incdec(chk)
     rule_conv_table(chk)
     rule_out(chk)
     rule_through(chk)
